@@ -632,7 +632,7 @@ class VhdlScope:
             parent._subscopes.append(self)
 
     def reserve_name(self, name):
-        self._used_names.add(name)
+        self._used_names.add(name.lower())
 
     def declare(self, obj, _is_first=True, name_hint=None, *, _obj_only=False):
         type_declared = _obj_only
@@ -1531,8 +1531,11 @@ class ModuleScope(VhdlScope):
         if additional_reserved_names is None:
             additional_reserved_names = set()
 
+        # used names are compared in lower case (vhdl is case insensitive)
         self._used_names = (
-            self._vhdl_reserved | self._additional_reserved | additional_reserved_names
+            self._vhdl_reserved
+            | self._additional_reserved
+            | {name.lower() for name in additional_reserved_names}
         )
 
 
